@@ -410,3 +410,12 @@ def run(ctx):
     r2_head(ctx)
     r3_send_size(ctx)
     r4_recv_size(ctx)
+
+
+_run_rules = run
+
+
+def run(ctx):
+    _run_rules(ctx)
+    from .. import boundaries
+    boundaries.check(ctx, 'C12.RB', 'C12')
